@@ -186,6 +186,28 @@ def run(ctx):
                          inp, observed=oc)
         elif not np.isfinite(L).all() or not (np.abs(L.T.dot(L) - M).max() <= 2 * t):
           ctx.fail_input('components_from_metric_tol', 'L^T L differs from M by more than the tolerance', inp, observed=L.tolist())
+  # ---- 3c. an explicit tolerance only concerns NEGATIVE eigenvalues: a singular PSD matrix (Cholesky fails) whose positive
+  # eigenvalues include one below the caller's tol is still factored exactly
+  for i in range(120 if thorough else 30):
+    d = int(rng.integers(2, 7))
+    t = float(rng.choice([1e-1, 1e-2, 1e-3]))
+    w = np.abs(rng.standard_normal(d)) + 0.5
+    w[0] = 0.0
+    if d > 2 or i % 2:
+      w[1] = t * float(rng.choice([0.1, 0.3, 0.9]))
+    Qm, _ = np.linalg.qr(rng.standard_normal((d, d)))
+    for shape in ('dense', 'diagonal'):
+      M = (Qm * w).dot(Qm.T) if shape == 'dense' else np.diag(w)
+      M = (M + M.T) / 2
+      oc, L = outcome(lambda: components_from_metric(M.copy(), tol=t))
+      ctx.count('components_from_metric_tol', 1)
+      ctx.hist('cfm_tol.case', '%s singular PSD, small positive eigenvalue below tol' % shape)
+      inp = dict(shape=shape, M=M.tolist(), tol=t, spectrum=w.tolist())
+      if oc != 'ok':
+        ctx.fail_input('components_from_metric_tol', '%s singular PSD matrix rejected with an explicit tol: %s' % (shape, oc), inp)
+      elif not np.isfinite(L).all() or not np.abs(L.T.dot(L) - M).max() <= 1e-9 * np.abs(M).max():
+        ctx.fail_input('components_from_metric_tol', 'PSD matrix with a positive eigenvalue below the explicit tol: L^T L differs from M', inp,
+                       observed=float(np.abs(L.T.dot(L) - M).max()))
   # ---- 4. metric initialisers
   for rep in range(10 if thorough else 4):
     data = fits.make_data(rng)
